@@ -557,7 +557,7 @@ def generate(repo):
     for c in info['classes']:
         for b in c['builds']:
             called = [x[0] for x in c['init_calls']]
-            if c['init_params'] is not None and b['name'] not in called:
+            if b['dict'] is not None and c['init_params'] is not None and b['name'] not in called:
                 errors.append({'item': '%s.__init__' % c['name'], 'file': c['file'], 'line': c['line'],
                                'msg': 'constructor does not call self.%s' % b['name']})
     return '\n'.join(out), info, errors
